@@ -333,6 +333,20 @@ func c06Cases(quick bool) []*c06Case {
 		methods2 := "type Buffer struct{ local int }\n\nvar theBuf = stdbytes.NewBufferString(\"q\")\n\nfunc (p *parser) on_a(_ Token) *stdbytes.Buffer { return theBuf }\n\nfunc (p *parser) on_s(x fmt.Stringer, _ Token) int {\n\tp.expect(\"parameter of on_s for term a\", any(x), any(fmt.Stringer(theBuf)))\n\treturn 1\n}\n"
 		out = append(out, &c06Case{Pkg: "bytes", Name: "layout/package-named-like-an-imported-package-with-local-twin", Lox: c06LoxHead + "@start s = a B\na = A\n", User: user2 + "\n" + methods2, ExpectOK: true, Checks: 1})
 	}
+	// types from two imported packages, first named in an order that is not the
+	// order of their import paths (and the other way round)
+	for i, ord := range [][2]string{{"time.Duration", "*bytes.Buffer"}, {"*bytes.Buffer", "time.Duration"}} {
+		val := map[string]string{"time.Duration": "time.Duration(14)", "*bytes.Buffer": "theBuf2"}
+		methods := "var theBuf2 = bytes.NewBufferString(\"q\")\n\n" +
+			fmt.Sprintf("func (p *parser) on_a(_ Token) %s { return %s }\n\nfunc (p *parser) on_c(_ Token) %s { return %s }\n\n", ord[0], val[ord[0]], ord[1], val[ord[1]]) +
+			fmt.Sprintf("func (p *parser) on_s(x %s, y %s, _ Token) int {\n\tp.expect(\"first parameter of on_s\", any(x), any(%s))\n\tp.expect(\"second parameter of on_s\", any(y), any(%s))\n\treturn 1\n}\n", ord[0], ord[1], val[ord[0]], val[ord[1]])
+		add(fmt.Sprintf("layout/two-imported-packages-%d", i), "@start s = a c B\na = A\nc = C\n", methods, []string{"time", "bytes"}, true, 2)
+		// the same through `any` parameters: a wrong package would compile and deliver a zero value
+		methodsAny := "var theBuf2 = bytes.NewBufferString(\"q\")\n\n" +
+			fmt.Sprintf("func (p *parser) on_a(_ Token) %s { return %s }\n\nfunc (p *parser) on_c(_ Token) %s { return %s }\n\n", ord[0], val[ord[0]], ord[1], val[ord[1]]) +
+			fmt.Sprintf("func (p *parser) on_s(x any, y any, _ Token) int {\n\tp.expect(\"first parameter of on_s\", x, any(%s))\n\tp.expect(\"second parameter of on_s\", y, any(%s))\n\treturn 1\n}\n", val[ord[0]], val[ord[1]])
+		add(fmt.Sprintf("layout/two-imported-packages-any-%d", i), "@start s = a c B\na = A\nc = C\n", methodsAny, []string{"time", "bytes"}, true, 2)
+	}
 	// Axis 3: layouts.
 	base := "func (p *parser) on_a(_ Token) S { return S{V: 7} }\n\n"
 	okS := "func (p *parser) on_s(x S, _ Token) int {\n\tp.expect(\"parameter of on_s\", any(x), any(S{V: 7}))\n\tvar zero int\n\treturn zero\n}\n"
@@ -493,6 +507,8 @@ func c06Batch(tag string, cases []*c06Case, st *mc.Stats, mu *sync.Mutex) []mc.V
 			return [][]int{{3}, {2, 3}, {2, 2, 3}, {2, 2, 2, 3}}
 		case strings.Contains(cs.Lox, "A*! B"):
 			return [][]int{{3}, {2, 3}, {2, 2, 2, 3}}
+		case strings.Contains(cs.Lox, "@start s = a c B"):
+			return [][]int{{2, 4, 3}}
 		case strings.Contains(cs.Lox, "a* B | c C"):
 			return [][]int{{3}, {2, 3}, {2, 2, 3}, {4, 4, 4}}
 		case strings.Contains(cs.Lox, "@error B"):
